@@ -96,7 +96,7 @@ def c11_HandleTrafficReport : List String := ["cloudControl.GetPortMapping", "ge
 def c11_ListConnectionCodes_Handle : List String := ["getClientID", "connCodeService.ListConnectionCodesByTargetClient"]
 def c11_ListMappings_Handle : List String := ["getClientID", "connCodeService.ListOutboundMappings", "connCodeService.ListInboundMappings", "connCodeService.ListOutboundMappings", "connCodeService.ListInboundMappings"]
 def c11_SendNotifyToClient_Handle : List String := ["router.IsClientOnline", "WithSender", "router.SendToClient"]
-def c11_createCommandContext : List String := ["GetClientIDByConnectionID", "GetClientIDByConnectionID"]
+def c11_createCommandContext : List String := ["GetClientIDByConnectionID"]
 def c11_getClientIDFromConnection : List String := ["clientRegistry.GetByConnID", "getConnectionByConnID", "GetClientID"]
 def c11_handleCommandPacket : List String := ["handleHTTPProxyResponsePacket", "HandleSOCKS5TunnelRequest", "HandleDNSResolveResponse", "HandleDNSResolveRequest", "HandleDNSQueryResponse", "HandleDNSQueryRequest", "HandleTrafficReport", "handleDisconnectCommand", "commandExecutor.Execute", "handleDefaultCommand"]
 def c11_handleDisconnectCommand : List String := ["clientRegistry.GetByConnID", "CloseConnection"]
